@@ -72,7 +72,7 @@ Theorem C08_failed_setup_leaves_parser : forall f files g p argv,
   done_after_work f = true -> p_setup p = None ->
   match p_setup (snd (fst (parse_step f files g p argv))) with
   | None => True
-  | Some su => exists live args, setup_in f (setup_g f g p) p live args = Ok su
+  | Some su => exists live args, setup_in f g p live args = Ok su
   end.
 Proof. exact failed_setup_leaves_parser. Qed.
 Print Assumptions C08_failed_setup_leaves_parser.
@@ -80,7 +80,7 @@ Theorem C08_failed_help_leaves_parser : forall f g p,
   done_after_work f = true -> p_setup p = None ->
   match p_setup (snd (fst (help_step f g p))) with
   | None => True
-  | Some su => setup_in f (setup_g f g p) p (p_live p) [] = Ok su
+  | Some su => setup_in f g p (p_live p) [] = Ok su
   end.
 Proof. exact failed_help_leaves_parser. Qed.
 Print Assumptions C08_failed_help_leaves_parser.
@@ -118,8 +118,24 @@ Theorem C08_config_path_attr_of_this_call : forall f p argv,
 Proof. exact cfg_attr_of_this_call. Qed.
 Print Assumptions C08_config_path_attr_of_this_call.
 
+(* seeded change C03-06: were the three lines that re-install the parser's own settings placed AFTER conflict resolution,
+   the resolver would read the settings of the parser constructed last:
+   [Construct 0; AddArgs 0 {my_x,name} a; AddArgs 0 {my_x,name} b; Construct 1 (NESTED); Parse 0 []] -> ArgumentError *)
+Theorem C08_history_refuted_reinstall_after_resolver :
+  reasserts facts_gen = true -> reassert_first facts_gen = false -> ~ history_full facts_gen FILES.
+Proof. exact (refuted_reinstall_late facts_gen). Qed.
+Print Assumptions C08_history_refuted_reinstall_after_resolver.
+
+(* seeded change C08-06: did set_defaults / _add_arguments test FieldWrapper.nested_mode instead of self.nested_mode,
+   [Construct 0 (WITHOUT_ROOT, config-path argument); AddArgs 0 {my_x,name} a; Construct 1 (); Parse 0 --config_path r1.json]
+   (r1.json = {"my_x": 17}) would leave my_x at 1 (and a stray top-level my_x) where a fresh interpreter returns 17 *)
+Theorem C08_history_refuted_nested_mode_of_set_defaults :
+  defaults_own_mode facts_gen = false -> ~ history_full facts_gen FILES.
+Proof. exact (refuted_rootmode facts_gen). Qed.
+Print Assumptions C08_history_refuted_nested_mode_of_set_defaults.
+
 (* What IS true, for histories of any length over any number of parsers: under `benign` - a decidable predicate
-   whose clauses (b_spelling, b_registry, b_cfgarg, b_cfgattr, b_tuple, b_frozen, b_defaults in Model/History.v) name exactly the
+   whose clauses (b_spelling, b_registry, b_cfgarg, b_cfgattr, b_tuple, b_frozen, b_defaults, b_rootmode, b_wrappers in Model/History.v) name exactly the
    situations above, each guarded by its switch - every parse answers what a fresh interpreter answers.
    Proved by induction over the operation list; holds for every setting of the switches. *)
 Theorem C08_history_partial : forall f files ops k i argv d,
